@@ -31,8 +31,10 @@ def build_store(kind):
     W.CLOCK.now = W.T0
     w = W.World()
     for i in range(2):
-        attrs = W.common_attrs(names=['n0', 'n1'], groups=['g0', 'g1'],
-                               appinfo=[('ns', 'd0'), ('ns', 'd1')], sensitive=False)
+        # three instances each: after one is deleted the stored indices have a hole, and "the
+        # instance at position i" and "the instance with stored index i" are different things
+        attrs = W.common_attrs(names=['n0', 'n1', 'n2'], groups=['g0', 'g1', 'g2'],
+                               appinfo=[('ns', 'd0'), ('ns', 'd1'), ('ns', 'd2')], sensitive=False)
         if kind != 'OpaqueObject' or i == 1:
             pass
         base_kind = kind.split(':')[0]
@@ -62,15 +64,15 @@ ABSENTV = {'Name': 'nosuch', 'Object Group': 'gnosuch',
 def actions():
     out = []
     for a in MULTI:
-        for idx in (None, 0, 1, 2, -1):
+        for idx in (None, 0, 1, 2, 3, -1):
             for val in ('new', 'equal', 'dup'):
                 out.append(('modify1x', a, idx, val, 'alice'))
-        for cur in ('v0', 'v1', 'absent', None):
+        for cur in ('v0', 'v1', 'vlast', 'absent', None):
             for val in ('new', 'dup'):
                 out.append(('modify20', a, cur, val, 'alice'))
-        for idx in (None, 0, 1, 2, -1):
+        for idx in (None, 0, 1, 2, 3, -1):
             out.append(('delete1x', a, idx, None, 'alice'))
-        for cur in ('v0', 'v1', 'absent', 'ref'):
+        for cur in ('v0', 'v1', 'vlast', 'absent', 'ref'):
             out.append(('delete20', a, cur, None, 'alice'))
         out.append(('set20', a, None, 'new', 'alice'))
         out.append(('modify1x', a, 0, 'new', 'bob'))
@@ -141,6 +143,8 @@ def materialise(action, snap, uid='1'):
             return cur[0] if len(cur) > 0 else ABSENTV[name]
         if sel_ == 'v1':
             return cur[1] if len(cur) > 1 else ABSENTV[name]
+        if sel_ == 'vlast':
+            return cur[-1] if cur else ABSENTV[name]
         if sel_ == 'absent':
             return ABSENTV[name]
         return None
